@@ -36,6 +36,10 @@ PRESETS = {
                              meat_strategy="feed_only_ruminants"),
     "popx": dict(BASE, population=41234567, shutoff="one_month_delayed_shutoff"),
     "short": dict(NW, NMONTHS=36, scenario="methane_scp", shutoff="continued_after_10_percent_fed"),
+    # a user-supplied starting head count ("<species>_head") and two presets that enable cellulosic sugar
+    "heads": dict(NW, meat_cattle_head=20000000, pig_head=1234567, shutoff="long_delayed_shutoff"),
+    "cs_only": dict(NW, scenario="cellulosic_sugar", waste="doubled_prices_in_country", shutoff="short_delayed_shutoff"),
+    "industrial": dict(NW, scenario="industrial_foods", shutoff="continued"),
     "scp_ruminants": dict(BASE, scenario="methane_scp", meat_strategy="feed_only_ruminants", shutoff="long_delayed_shutoff"),
 }
 COUNTRIES = ["USA", "IND", "ARG", "BRA", "CHN", "FRA", "NGA", "AUS", "JPN", "LSO", "DEU", "IDN", "SLV", "ALB", "ECU"]
@@ -104,19 +108,23 @@ def make_plan(ctx):
         # the fourth pair reuses the patched pair's preset (hence, in a history, the same caller dictionary)
         # NZL is special-cased in compute_parameters_third_round (rule-of-thumb constant): it always precedes a run that
         # reaches the same branch (ARG, nuclear winter, non-immediate shut-off)
-        pairs = [pt, (c1, "baseline"), (c2, "baseline"), (c1, pt[1]), ("NZL", "baseline"), ("ARG", "nw_plain")]
+        # a head-count override always precedes runs of other countries; two runs with cellulosic sugar enabled follow
+        # each other in both orders (module-level tables scaled in place would compound)
+        pairs = [pt, (c1, "baseline"), (c2, "baseline"), (c1, pt[1]), ("NZL", "baseline"), ("ARG", "nw_plain"),
+                 (c2, "heads"), (c1, rng.choice(["cs_only", "industrial"])), ("ARG", "nw_resilient")]
     else:
         cs = rng.sample([c for c in COUNTRIES if c not in ("SLV", "ALB", "ECU")], 5)
         pairs = rng.sample(PATCHED[:4], 2) + [PATCHED[4]] + [(c, "baseline") for c in cs[:3]]
-        pairs += [("NZL", "baseline"), ("ARG", "nw_plain")]
-        while len(pairs) < 14:
+        pairs += [("NZL", "baseline"), ("ARG", "nw_plain"), (cs[0], "heads"), (cs[1], "cs_only"), ("ARG", "nw_resilient"),
+                  (cs[2], "industrial")]
+        while len(pairs) < 18:
             cand = (rng.choice(cs + ["SLV", "ECU"]), rng.choice(others))
             if cand not in pairs:
                 pairs.append(cand)
     batches = []
     if ctx.quick:
         p = pairs
-        batches.append([run_step(i, [x[0]], x[1]) for i, x in enumerate([p[4], p[5]] + p[:4])])
+        batches.append([run_step(i, [x[0]], x[1]) for i, x in enumerate([p[6], p[4], p[5]] + p[:4] + [p[7], p[8]])])
         b, n = [], 0
         for i, x in enumerate(reversed(p)):
             b.append(ow_step(n, i)); n += 1
@@ -125,7 +133,7 @@ def make_plan(ctx):
         batches.append(b)
         order = p[:4]
         rng.shuffle(order)
-        order = order[:2] + [p[4]] + order[2:] + [p[5]]
+        order = [p[8]] + order[:2] + [p[4], p[6]] + order[2:] + [p[5], p[7]]
         b = [ow_step(0, rng.randrange(5)), run_step(1, [p[1][0], p[2][0]], "baseline")]   # two countries in ONE call
         n = 2
         for x in order:
